@@ -310,3 +310,64 @@ func vpH_c08_dupkeys() {
 	b, jerr := json.Marshal(m)
 	vpAssert(jerr == nil && vpJKind(b) == 5 && vpJLen(b) == 2, "the JSON object has each key once")
 }
+
+func init() { vpRegister("c08_merge_wide", vpH_c08_merge_wide) }
+
+// A mapping with many entries: a merge that brings in four keys, placed first,
+// in the middle or last among n keys of the mapping's own (n next to the
+// integer constants of the resolver, and 14 - sizes at which library routines
+// change algorithm): the merged keys stand where the merge key stood, in the
+// order of their source, and the own keys in document order around them.
+func vpH_c08_merge_wide() {
+	n := vpBoundarySize("*yaml.go", 14)
+	if n > 20 {
+		n = 20
+	}
+	src := vpMapping()
+	src.Anchor = "s"
+	merged := []string{"zulu", "yankee", "xray", "whiskey"}
+	for _, k := range merged {
+		src.Content = append(src.Content, vpScalar(k), vpScalar("m"))
+	}
+	at := 0
+	switch vpInt(0, 2) {
+	case 1:
+		at = n / 2
+	case 2:
+		at = n
+	}
+	m := vpMapping()
+	var want []string
+	for i := 0; i <= n; i++ {
+		if i == at {
+			m.Content = append(m.Content, vpMergeKey(), vpAlias(src))
+			want = append(want, merged...)
+		}
+		if i < n {
+			k := "own" + string(rune('a'+i))
+			m.Content = append(m.Content, vpScalar(k), vpScalar("o"))
+			want = append(want, k)
+		}
+	}
+	holder := vpMapping()
+	holder.Content = append(holder.Content, vpScalar("s"), src, vpScalar("m"), m)
+	got, err := DecodeYAML(holder)
+	vpAssert(err == nil, "the document decodes")
+	hm, ok := got.(*MapSA)
+	if !ok {
+		vpAssert(ok, "the document is a mapping")
+		return
+	}
+	mv, _ := hm.Get("m")
+	mm, ok := mv.(*MapSA)
+	vpAssert(ok && mm.Len() == len(want), "one entry per key")
+	if !ok || mm.Len() != len(want) {
+		return
+	}
+	i := 0
+	mm.Range(func(k string, v any) error {
+		vpAssert(k == want[i], "merged keys stand where the merge key stood, in the order of their source; own keys in document order")
+		i++
+		return nil
+	})
+}
